@@ -6,7 +6,7 @@
 From Coq Require Import List Bool ZArith Lia Permutation Sorting.Sorted.
 Import ListNotations.
 Require Import Nib.C01.Model.
-Open Scope Z_scope.
+Local Open Scope Z_scope.
 
 (* ------------------------------------------------------------------ insertion sort *)
 
